@@ -1,26 +1,31 @@
 """Configuration of ./check for property C08 (loaded by tools/props.py)."""
 
-PROP = {'engine': 'msg',
- 'lean_props': ['MuscleModel.Props.C08'],
- 'harnesses': [{'name': 'xwire',
-                'sources': ['harness/xwire.cpp'],
-                'extra': ['c:lang/c/minimessage/MiniMessage.c',
+PROP = {'assumptions': ['Messages within the common repertoire (no pointer/tag fields)', 'sizes below 2^32', 'Python pair: field names and strings valid UTF-8'],
+ 'engine': 'msg',
+ 'harnesses': [{'extra': ['c:lang/c/minimessage/MiniMessage.c',
                           'c:lang/c/minimessage/MiniMessageGateway.c:-fno-sanitize=alignment',
                           'c:lang/c/micromessage/MicroMessage.c',
-                          'c:lang/c/micromessage/MicroMessageGateway.c']}],
+                          'c:lang/c/micromessage/MicroMessageGateway.c'],
+                'name': 'xwire',
+                'sources': ['harness/xwire.cpp']}],
+ 'lean_props': ['MuscleModel.Props.C08'],
+ 'rule': "random op sequences (engine msg) restricted to the common repertoire; at every flatten the C++ bytes must equal the Lean model's encode, and the "
+         'mini, micro and Python codecs must read the same content from them, re-serialise / rebuild them byte-identically, be accepted by the C++ parser, and '
+         'produce the same 8-byte stream frame; distinct = distinct case bodies',
  'trusted_base': ['hand-written Lean model of Message::Flatten/Unflatten/FlattenedSize and the public mutators (lean/MuscleModel/Wire)',
                   'type codes, protocol version, per-type wire sizes and the nesting limit are regenerated from /repo on every run (tools/extract_consts.cpp)',
                   'Spec/WireConstants.lean: the documented constants, typed by hand from the documentation',
                   'tools/pymsg_driver.py (line protocol around lang/python3/message.py), harness/cdialects.h (dumps/builders through the public mini/micro '
                   'API)',
                   'the internals of the C mini/micro and Python codecs are not modelled: their agreement with the layout is established by the cross check '
-                  'only'],
- 'assumptions': ['Messages within the common repertoire (no pointer/tag fields)', 'sizes below 2^32', 'Python pair: field names and strings valid UTF-8'],
- 'rule': "random op sequences (engine msg) restricted to the common repertoire; at every flatten the C++ bytes must equal the Lean model's encode, and the "
-         'mini, micro and Python codecs must read the same content from them, re-serialise / rebuild them byte-identically, be accepted by the C++ parser, and '
-         'produce the same 8-byte stream frame; distinct = distinct case bodies'}
+                  'only']}
 
 TEXT = {'design_ref': 'DESIGN.md section 4, C08',
+ 'note': 'The internals of the C and Python codecs are not modelled (correspondence only).  Python pair only for UTF-8 names/strings.  One disagreement is an '
+         'open known finding with a corpus trigger (message.py: a signalling-NaN point/rect coordinate comes back quiet, XW-PY-SNAN); its input class is kept '
+         'out of the random stream by construction.  Two were repaired and are generated freely again, with regression cases in corpus/C08 (message.py: '
+         'FlattenedSize of non-ASCII field names; MicroMessage.c: UMFindData on a zero-length last item).  MiniMessageGateway.c is compiled without the UBSan '
+         'alignment check (its output path stores a pointer at a misaligned address on every call).',
  'technique': 'Lean 4 theorems about the model encoder (header/field/payload layout, injectivity, 8-byte frame round trip, regenerated constants = documented '
               'constants by `decide`) + differential correspondence of the model with the C++ writer + a cross-implementation oracle that runs the real C mini '
               'codec, C micro codec (both linked in) and the Python codec (subprocess) on the same Messages',
@@ -30,8 +35,4 @@ TEXT = {'design_ref': 'DESIGN.md section 4, C08',
          '8-byte length/encoding frame round-trips, and every constant regenerated on this run from the C++ headers, MiniMessage.c, MicroMessage.c, their '
          'gateways, message.py and message_transceiver_thread.py equals the hand-typed documented table.  Validated, not proved: on random Messages of the '
          'common repertoire the C++ bytes equal the model bytes, and the mini, micro and Python codecs read the same content from them, re-serialise/rebuild '
-         'them byte-identically, are accepted back by the C++ parser, and write the same stream frame.',
- 'note': 'The internals of the C and Python codecs are not modelled (correspondence only).  Python pair only for UTF-8 names/strings.  Three disagreements are '
-         'open known findings with corpus triggers (message.py: FlattenedSize of non-ASCII field names, signalling-NaN point/rect coordinates; MicroMessage.c: '
-         'UMFindData on a zero-length last item); their input classes are kept out of the random stream by construction.  MiniMessageGateway.c is compiled '
-         'without the UBSan alignment check (its output path stores a pointer at a misaligned address on every call).'}
+         'them byte-identically, are accepted back by the C++ parser, and write the same stream frame.'}
